@@ -5,7 +5,7 @@
     property.go:5-80     propertyMode, the octal-trit masks and the writable/…/configureSet predicates
     property.go:95-118   isAccessorDescriptor / isDataDescriptor / isGenericDescriptor / isEmpty
     property.go:123-195  toPropertyDescriptor
-    property.go:197-218  fromPropertyDescriptor
+    property.go:197-221  fromPropertyDescriptor (after fix: f48e83f)
     object.go:118-148    readProperty / writeProperty / deleteProperty (map + propertyOrder)
     object_class.go:22-30    objectEnumerate
     object_class.go:160-186  objectGetOwnProperty / objectGetProperty / objectGet
@@ -482,17 +482,17 @@ def step (h : MHeap) : Op → StepRes
 
 /-! ### observations -/
 
-/-- property.go:197 fromPropertyDescriptor as seen through getOwnPropertyDescriptor -/
+/-- property.go:197 fromPropertyDescriptor (as of fix f48e83f) seen through getOwnPropertyDescriptor:
+    the branch is chosen by the STORED value (propertyGetSet ⇒ accessor, get/set always reported,
+    nil and &nilGetSetObject both read as undefined), otherwise by isDataDescriptor with a
+    non-panicking `value, _ := descriptor.value.(Value)` -/
 def fromPropertyDescriptor (p : MProp) : DescObs :=
-  if p.isDataDescriptor then
-    match p.value with
-    | .val v => .data v p.writable p.enumerable p.configurable
-    | _ => .panic                                  -- descriptor.value.(Value) type assertion
-  else if p.isAccessorDescriptor then
-    match p.value with
-    | .gs g s => .acc (slotFn g) (slotFn s) p.enumerable p.configurable
-    | _ => .panic
-  else .weird p.enumerable p.configurable
+  match p.value with
+  | .gs g s => .acc (slotFn g) (slotFn s) p.enumerable p.configurable
+  | .val v => if p.isDataDescriptor then .data v p.writable p.enumerable p.configurable
+              else .weird p.enumerable p.configurable
+  | .nil => if p.isDataDescriptor then .data 0 p.writable p.enumerable p.configurable
+            else .weird p.enumerable p.configurable
 
 /-- object_class.go:22 objectEnumerate -/
 def enumerate (o : MObj) (all : Bool) : List Name :=
